@@ -32,6 +32,94 @@ func (in *interp) mstate(p *value) *mutexState {
 
 type wgState struct{ n int64 }
 
+// sync.Map: an association list per map object; every method is one atomic visible operation.
+type syncMapState struct {
+	keys, vals []value
+}
+
+func (in *interp) syncMap(p *value) *syncMapState {
+	if in.syncMaps == nil {
+		in.syncMaps = map[*value]*syncMapState{}
+	}
+	m := in.syncMaps[p]
+	if m == nil {
+		m = &syncMapState{}
+		in.syncMaps[p] = m
+	}
+	return m
+}
+
+func (in *interp) syncMapFind(m *syncMapState, k value) int {
+	ki := k.(iface)
+	for i, o := range m.keys {
+		oi := o.(iface)
+		if oi.t == nil || ki.t == nil || !types.Identical(oi.t, ki.t) {
+			continue
+		}
+		if in.r.branch(in.equals(ki.t, oi.v, ki.v), "sync.Map-key") {
+			return i
+		}
+	}
+	return -1
+}
+
+func registerSyncMap(e *Engine) {
+	e.reg("(*sync.Map).Load", func(in *interp, fr *frame, a []value) value {
+		p := a[0].(*value)
+		in.sch.yield("sync.Map.Load")
+		if in.race != nil {
+			in.race.acquire(in.sch.cur, p)
+		}
+		m := in.syncMap(p)
+		if i := in.syncMapFind(m, a[1]); i >= 0 {
+			return tuple{m.vals[i], in.ctx.T}
+		}
+		return tuple{iface{}, in.ctx.F}
+	})
+	store := func(in *interp, p *value, k, v value) {
+		m := in.syncMap(p)
+		if i := in.syncMapFind(m, k); i >= 0 {
+			m.vals[i] = v
+		} else {
+			m.keys, m.vals = append(m.keys, k), append(m.vals, v)
+		}
+		if in.race != nil {
+			in.race.release(in.sch.cur, p)
+		}
+		in.sch.wepoch++
+	}
+	e.reg("(*sync.Map).Store", func(in *interp, fr *frame, a []value) value {
+		p := a[0].(*value)
+		in.sch.yield("sync.Map.Store")
+		store(in, p, a[1], a[2])
+		return nil
+	})
+	e.reg("(*sync.Map).LoadOrStore", func(in *interp, fr *frame, a []value) value {
+		p := a[0].(*value)
+		in.sch.yield("sync.Map.LoadOrStore")
+		if in.race != nil {
+			in.race.acquire(in.sch.cur, p)
+		}
+		m := in.syncMap(p)
+		if i := in.syncMapFind(m, a[1]); i >= 0 {
+			return tuple{m.vals[i], in.ctx.T}
+		}
+		store(in, p, a[1], a[2])
+		return tuple{a[2], in.ctx.F}
+	})
+	e.reg("(*sync.Map).Delete", func(in *interp, fr *frame, a []value) value {
+		p := a[0].(*value)
+		in.sch.yield("sync.Map.Delete")
+		m := in.syncMap(p)
+		if i := in.syncMapFind(m, a[1]); i >= 0 {
+			m.keys = append(m.keys[:i:i], m.keys[i+1:]...)
+			m.vals = append(m.vals[:i:i], m.vals[i+1:]...)
+		}
+		in.sch.wepoch++
+		return nil
+	})
+}
+
 func registerSync(e *Engine) {
 	lock := func(in *interp, fr *frame, a []value) value {
 		p := a[0].(*value)
